@@ -143,6 +143,8 @@ def evaluation_order_family():
         "stel g = 1; functie f() { g = g + 1; g } stel a = [0, 0, 0, 0]; a[g] = f(); [a, g]",
         "stel g = 1; functie f() { g = g + 1; g } stel a = [5, 6, 7, 8]; a[f()] + g",
         "stel fs = [functie(x) { x + 1 }, functie(x) { x * 100 }]; stel i = 0; functie nxt() { i = i + 1; i } stel f = fs[i]; f(nxt())",
+        "functie p(x) { print(\"p {}\", x); x } print(\"{} {} {}\", p(1), p(2), p(3)); lengte([p(4), p(5)])", "stel n = 0; functie tel() { n = n + 1; n } print(\"{} {} {}\", tel(), tel(), tel()); n",
+        "print(\"{} {}\", 1 / 0, [1][5])", "print(\"{} {}\", [1][5], 1 / 0)", "functie p(x) { print(\"p {}\", x); x } string(p(1)) == string(p(1))", "functie p(x) { print(\"p {}\", x); x } int(p(2)) + int(p(3)) * lengte([p(4)])",
         "functie p(x) { print(\"p {}\", x); x } p(1) + p(2) * p(3) - p(4)", "functie p(x) { print(\"p {}\", x); x } p(p(1) + p(2))",
     ]
     return out
